@@ -154,6 +154,7 @@ fn partitions(n: usize, k: usize) -> Vec<Vec<u8>> {
 }
 
 struct BinGroup {
+    idx: usize,
     family: &'static str,
     pts: Vec<Vec<f64>>,
     mask: u32,
@@ -174,6 +175,9 @@ const ALPHAS: [f64; 4] = [0.0, 0.01, 1.0, 100.0];
 const GTOL: f64 = 1e-4;
 /// "large": ten times the library default of 100 (healthy fits of these 1..12-parameter problems need < 300)
 const MAX_ITER: u64 = 1000;
+/// a logistic fit that fails the stationarity test at MAX_ITER is refitted with this cap and judged on the refit
+/// (ill-conditioned scale-100 problems legitimately need a few thousand L-BFGS iterations)
+const RETRY_MAX_ITER: u64 = 5_000;
 /// Tweedie problems have 1..3 parameters (healthy fits need < 100 iterations): three times the default
 const TW_MAX_ITER: usize = 300;
 
@@ -195,18 +199,18 @@ fn main() {
     }
     ctx.set_rule(
         "binary: 1-D lattice {0..n-1}, 1-D lattice with every point doubled, 2-D lattice 3x2 (quick, n=6) / 4x2 (thorough, n=8); EVERY labeling with both classes present (2^n - 2) \
-         x label type {bool, usize, &str, String} x 2 namings (which literal values the two groups get) x sample order {identity, reversed, interleaved} x feature scale {1,10,100} \
-         x alpha {0,.01,1,100} x intercept {on,off} x initial parameters {none, given}; labelings that are weakly linearly separable (own exact integer test, with / without intercept as fitted) \
+         x sample order {identity, reversed, interleaved} x feature scale {1,10,100} x alpha {0,.01,1,100} x intercept {on,off} x initial parameters {none, given} \
+         x {label type {bool, usize, &str, String} x 2 namings (which literal values the two groups get): thorough = all eight, quick = two per fit (one of each naming) cycling along the enumeration}; labelings that are weakly linearly separable (own exact integer test, with / without intercept as fitted) \
          are out of domain for alpha = 0 and in domain for alpha > 0. multinomial: EVERY partition of the n = 6 (quick) / 7 (thorough) points of the 1-D and 2-D lattice into exactly k = 2,3,4 classes \
-         (restricted growth strings) x scale x alpha x intercept x init x {label type {usize, &str, String} x 2 namings (class values in / not in block order): thorough = full product and 3 sample orders; \
-         quick = identity order and ONE of the six label variants per fit, cycling along the enumeration}; alpha = 0 cases without a certified finite maximiser (own Newton) are out of domain. \
+         (restricted growth strings) x scale x alpha x intercept x init x {label type {usize, &str, String} x 2 namings (class values in / not in block order): thorough = 3 sample orders and two of the six label variants per fit, \
+         quick = identity order and one label variant per fit, cycling along the enumeration}; alpha = 0 cases without a certified finite maximiser (own Newton) are out of domain. \
          Tweedie: power {0,1,1.5,2,3} x link {identity, log, logit} x alpha {0,.1,1} x intercept {on,off} x EVERY target vector over a 3-letter alphabet inside the support on a 1-D design (4 points quick / 5 thorough) \
          and over a 2-letter (quick) / 3-letter (thorough) alphabet on the 6-point 2-D design, plus every single-position replacement of a target by a value outside the support. \
          evaluations = in-domain fits (one per case); non-trivial = the fit returned parameters different from its start (non-zero weights) or an out-of-support rejection was demanded; \
          every fitted model is additionally queried on the training points, the origin and extreme points with |x.w| in {1,20,40,710,1000} (counted as prediction_queries).",
     );
     ctx.assume("documented objectives (rustdoc of logistic_loss / multi_logistic_loss / TweedieProblem::cost): binary -sum_i log sigm(y_i z_i) + alpha/2 w.w; multinomial -sum(Y*log softmax(XW+b)) + alpha/2 ||W||_F^2; Tweedie 1/2 (sum_i unit_deviance(y_i, mu_i) + alpha w.w) with the textbook unit deviance the comments in distribution.rs quote; sums not means; the intercept is never penalised");
-    ctx.assume("stationarity oracle: own f64 gradient norm at the returned parameters <= 10 x gradient_tolerance (1e-4; max_iterations 1000 = 10 x default for the logistic models, 300 = 3 x default for the 1..3-parameter Tweedie problems) OR objective within 1e-8 * max(1,|J*|) of the own damped-Newton minimum (logistic: from zero, convex; Tweedie: Newton descent started at the returned point); a violation needs BOTH to fail");
+    ctx.assume("stationarity oracle: own f64 gradient norm at the returned parameters <= 10 x gradient_tolerance (1e-4; logistic models: max_iterations 1000 = 10 x default, and a fit that fails the test is refitted with max_iterations 5000 and judged on that refit; Tweedie: max_iter 300 = 3 x default for 1..3 parameters) OR objective within 1e-8 * max(1,|J*|) of the own damped-Newton minimum (logistic: from zero, convex; Tweedie: Newton descent started at the returned point); a violation needs BOTH to fail");
     ctx.assume("domain, alpha = 0: binary by an exact integer cone test (no non-zero (w,b) with y_i (x_i.w+b) >= 0 for all i; quasi-complete separation counts as separable because no finite maximiser exists); multinomial by an own Newton solve from zero that reaches gradient norm <= 1e-10*max|x| with all score spreads <= 15");
     ctx.assume("Tweedie domain: targets inside the support; the documented start (coef 0, intercept link(mean y)) has a finite objective; an own Newton solve from that start certifies an interior stationary point with |linear predictor| <= 30; everything else is counted out_of_domain");
     ctx.assume("Tweedie identity link with power >= 1: the deviance is undefined for linear predictors <= 0, so an Err from the solver is accepted (counted); the fit runs in a child process and must return within 2000 ms (longest returning child is in the evidence), returned parameters must still be stationary; predictions of these models are not queried");
@@ -227,18 +231,20 @@ fn main() {
         for (fam, pts) in &lattices {
             for mask in 1..(1u32 << nb) - 1 {
                 for &scale in &SCALES {
-                    bgroups.push(BinGroup { family: fam, pts: pts.clone(), mask, scale });
+                    let idx = bgroups.len();
+                    bgroups.push(BinGroup { idx, family: fam, pts: pts.clone(), mask, scale });
                 }
             }
         }
     }
     let label_variants: Vec<(&'static str, u8)> = vec![("bool", 0), ("bool", 1), ("usize", 0), ("usize", 1), ("str", 0), ("str", 1), ("string", 0), ("string", 1)];
     let bin_orders = orders(nb, &["identity", "reversed", "interleaved"]);
-    let per_bgroup = label_variants.len() * bin_orders.len() * ALPHAS.len() * 2 * 2;
+    let per_bgroup = ctx.pick(2, label_variants.len()) * bin_orders.len() * ALPHAS.len() * 2 * 2;
     let bin_expected = (bgroups.len() * per_bgroup) as u64;
     par_sweep(&ctx, "binary logistic", &bgroups, |g| {
         let mut local = Tally::default();
         let scale = g.scale;
+        let mut cfg = 0usize;
         for (oname, perm) in &bin_orders {
             let x: Vec<Vec<f64>> = perm.iter().map(|&i| g.pts[i].iter().map(|v| v * scale).collect()).collect();
             let groups: Vec<u8> = perm.iter().map(|&i| ((g.mask >> i) & 1) as u8).collect();
@@ -255,7 +261,15 @@ fn main() {
                         } else {
                             None
                         };
-                        for (lt, naming) in &label_variants {
+                        cfg += 1;
+                        // quick: two of the eight label variants per fit (one of each naming), cycling along the enumeration
+                        let chosen: Vec<(&'static str, u8)> = if ctx.quick() {
+                            let t = (g.idx + cfg) % 4;
+                            vec![label_variants[2 * t], label_variants[2 * ((t + 1 + cfg / 4) % 4) + 1]]
+                        } else {
+                            label_variants.clone()
+                        };
+                        for (lt, naming) in &chosen {
                             let case = Case::Binary(BinCase {
                                 family: g.family.to_string(),
                                 x: x.clone(),
@@ -267,6 +281,7 @@ fn main() {
                                 init: init.clone(),
                                 gtol: GTOL,
                                 max_iter: MAX_ITER,
+                                retry_max_iter: RETRY_MAX_ITER,
                                 order: oname.to_string(),
                                 scale,
                             });
@@ -313,7 +328,7 @@ fn main() {
     }
     let m_orders = if ctx.quick() { orders(nm, &["identity"]) } else { orders(nm, &["identity", "reversed", "interleaved"]) };
     let m_labels: Vec<(&'static str, u8)> = vec![("usize", 0), ("usize", 1), ("str", 0), ("str", 1), ("string", 0), ("string", 1)];
-    let variants_per_fit = if ctx.quick() { 1 } else { m_labels.len() };
+    let variants_per_fit = ctx.pick(1usize, 2usize);
     let per_mgroup = variants_per_fit * m_orders.len() * 2 * 2;
     let multi_expected = (mgroups.len() * per_mgroup) as u64;
     par_sweep(&ctx, "multinomial logistic", &mgroups, |g| {
@@ -337,7 +352,9 @@ fn main() {
                         None
                     };
                     cfg += 1;
-                    let chosen: Vec<(&'static str, u8)> = if ctx.quick() { vec![m_labels[(g.idx * 5 + cfg) % m_labels.len()]] } else { m_labels.clone() };
+                    // one (quick) / two (thorough, one of each naming) of the six label variants per fit, cycling
+                    let t = (g.idx * 5 + cfg) % m_labels.len();
+                    let chosen: Vec<(&'static str, u8)> = if ctx.quick() { vec![m_labels[t]] } else { vec![m_labels[t], m_labels[(t + 3 + 2 * (cfg % 2)) % m_labels.len()]] };
                     for (lt, naming) in &chosen {
                         let case = Case::Multi(MultiCase {
                             family: g.family.to_string(),
@@ -351,6 +368,7 @@ fn main() {
                             init: init.clone(),
                             gtol: GTOL,
                             max_iter: MAX_ITER,
+                            retry_max_iter: RETRY_MAX_ITER,
                             order: oname.to_string(),
                             scale,
                         });
